@@ -175,7 +175,7 @@ class SymWorld(BaseWorld):
         self.in_dims.setdefault(tag or letter, d.items.n)
         return d
 
-    def array(self, name, dims, cls=None):
+    def array(self, name, dims, cls=None, int_ok=False):
         a = world.make_array(name, dims, cls=cls)
         self.in_arrays[name] = (a.values.frozen(), a.values.shape)
         return a
@@ -490,13 +490,18 @@ class ConcWorld(BaseWorld):
             return Dimension(name=name, letter=letter, items=[f"it{j + (k % 2)}" for j in range(n)])
         return Dimension(name=name, letter=letter, items=[f"{tag}{j}" for j in range(n)])
 
-    def array(self, name, dims, cls=None):
+    def array(self, name, dims, cls=None, int_ok=False):
         from flodym.flodym_arrays import FlodymArray
         from flodym.dimensions import DimensionSet
 
         cls = cls or FlodymArray
         shape = tuple(len(d.items) for d in dims)
         vals = self.ndarray(name, shape)
+        if int_ok and self.int_driver and self.fill is None:
+            # an operand that is only read: whole numbers in an integer-typed array on the 'integer' runs
+            vals = _np.round(vals * 4).astype(_np.int64)
+            self.inputs[name] = vals.tolist()
+            self.inputs.setdefault("integer_typed", []).append(name)
         return cls(dims=DimensionSet(dim_list=list(dims)), values=vals, name=name)
 
     def number(self, name):
@@ -506,6 +511,8 @@ class ConcWorld(BaseWorld):
                 self.inputs[name] = v
                 return float(v)
         v = float(self.rng.choice([-3, -2, 2, 3, 5]))
+        if self.int_driver:
+            v += 0.5  # a number with a fractional part next to integer-typed arrays
         self.inputs[name] = v
         return v
 
@@ -583,10 +590,19 @@ class ConcWorld(BaseWorld):
         if not bool(cond):
             raise core.PathInfeasible()
 
+    def _fail(self, name, detail):
+        # the evaluation goes on after a failing clause (so that the clauses of every property of a shared unit get
+        # their verdict); the run reports all of them at its end
+        if not hasattr(self, "failures"):
+            self.failures = []
+        self.failures.append((name, str(detail)))
+        if len(self.failures) > 200:
+            raise ContractViolation(self.failures[0][0], self.failures[0][1])
+
     def prove(self, name, cond, kind="post", hyps=(), detail=""):
         self.checked += 1
         if all(bool(h) for h in hyps) and not bool(cond):
-            raise ContractViolation(name, detail)
+            self._fail(name, detail)
 
     def cover(self, name, cond=True):
         pass
@@ -615,7 +631,8 @@ class ConcWorld(BaseWorld):
         self.checked += 1
         for idx in itertools.product(*[range(int(n)) for n in sizes]):
             if not bool(pred(tuple(idx))):
-                raise ContractViolation(name, f"{detail} at index {idx}")
+                self._fail(name, f"{detail} at index {idx}")
+                return
 
 
     def forall_range(self, name, ranges, pred, kind="post", detail="", hyps=()):
@@ -624,7 +641,8 @@ class ConcWorld(BaseWorld):
             return
         for idx in itertools.product(*[range(int(lo), int(hi)) for lo, hi in ranges]):
             if not bool(pred(tuple(idx))):
-                raise ContractViolation(name, f"{detail} at index {idx}")
+                self._fail(name, f"{detail} at index {idx}")
+                return
 
     def sum1(self, tag, lo, hi, f):
         return self.sum([(tag, lo, hi)], lambda idx: f(idx[0]))
